@@ -285,6 +285,26 @@ int64_t cmb_priorityqueue_put(struct cmb_priorityqueue *pqp,
     }
 }
 
+/*
+ * cmb_priorityqueue_cancel - Take an object out of the queue by its handle.
+ * That shortens the queue: record it, and tell any process waiting for space.
+ */
+bool cmb_priorityqueue_cancel(struct cmb_priorityqueue *pqp,
+                              const uint64_t handle)
+{
+    cmb_assert_release(pqp != NULL);
+    cmb_assert_release(((struct cmi_resourcebase *)pqp)->cookie == CMI_INITIALIZED);
+
+    struct cmi_hashheap *hp = &(pqp->queue);
+    const bool found = cmi_hashheap_remove(hp, handle);
+    if (found) {
+        record_sample(pqp);
+        cmb_resourceguard_signal(&(pqp->rear_guard));
+    }
+
+    return found;
+}
+
 uint64_t cmb_priorityqueue_position(const struct cmb_priorityqueue *pqp,
                                     const uint64_t handle)
 {
